@@ -3,10 +3,11 @@
 //
 // Under Kani: child of slice `snapshot_tracker` (SnapshotTracker's text from src/snapshot.rs compiled
 // against verif_models::SkipSet).  Under --cfg verif_replay: child of the real src/snapshot.rs.
+use super::SnapshotTracker;
 #[cfg(not(verif_replay))]
-use super::SnapshotTracker;
-#[cfg(verif_replay)]
-use super::SnapshotTracker;
+use super::{Core, Snapshot};
+#[cfg(not(verif_replay))]
+use std::sync::Arc;
 
 fn check_list(all: &[u64], live: &[(u64, bool)]) {
 	// sorted (the precondition of CompactionIterator::find_earliest_visible_snapshot's binary search)
@@ -79,4 +80,71 @@ fn c01_tracker_counts_readers() {
 	kani::cover!(drop_a && drop_b && drop_c, "all readers finished");
 	core::mem::forget(all);
 	core::mem::forget(t);
+}
+
+
+/// C01-O6: a snapshot registers the horizon it READS at.  Transaction::new loads the horizon and then
+/// constructs the snapshot; commits may publish in between, so the visibility horizon `v` at
+/// registration time can be above the horizon `h` the snapshot was handed.  What is registered (and
+/// unregistered again on drop) must be h: compaction protects exactly what the tracker lists.
+#[cfg(not(verif_replay))]
+#[kani::proof]
+#[kani::unwind(7)]
+fn c01_snapshot_registers_its_own_horizon() {
+	let h: u64 = kani::any();
+	let v: u64 = kani::any();
+	let other: u64 = kani::any();
+	kani::assume(h <= v && v <= 3 && other <= 3);
+	let core = Arc::new(Core { snapshot_tracker: SnapshotTracker::new(), visible: std::sync::atomic::AtomicU64::new(v) });
+	core.snapshot_tracker.register(other); // some other live reader
+	let s = Snapshot::new(Arc::clone(&core), h);
+	assert!(s.seq_num == h, "snapshot does not read at the horizon it was given");
+	let all = core.snapshot_tracker.get_all_snapshots();
+	let mut listed = false;
+	let mut k = 0;
+	while k < all.len() {
+		if all[k] == h {
+			listed = true;
+		}
+		k += 1;
+	}
+	assert!(listed, "the horizon a live snapshot reads at is not in the registry compaction consults");
+	core::mem::forget(all);
+	drop(s);
+	let after = core.snapshot_tracker.get_all_snapshots();
+	assert!(after.len() == 1 && after[0] == other, "dropping a snapshot did not unregister exactly its own registration");
+	kani::cover!(h < v, "a commit was published between the horizon load and the registration");
+	kani::cover!(h == other, "two live snapshots share the horizon");
+	core::mem::forget(after);
+	core::mem::forget(core);
+}
+
+/// native replay of the same obligation on the real Snapshot / Core: a real store in a temp dir, a commit
+/// to move the visibility horizon past h, then Snapshot::new(core, h)
+#[cfg(verif_replay)]
+#[kani::proof]
+fn c01_snapshot_registers_its_own_horizon() {
+	use std::sync::Arc;
+	let h: u64 = kani::any();
+	let v: u64 = kani::any();
+	let other: u64 = kani::any();
+	let dir = tempdir::TempDir::new("verif_c01").unwrap();
+	let opts = Arc::new(crate::Options { path: dir.path().to_path_buf(), ..Default::default() });
+	let tree = crate::Tree::new(Arc::clone(&opts)).unwrap();
+	let rt = tokio::runtime::Builder::new_current_thread().enable_all().build().unwrap();
+	// move the real visibility horizon to at least h + 1 (so that h < visible whenever the solver chose h < v)
+	for i in 0..=(v as usize) {
+		let mut tx = tree.begin().unwrap();
+		tx.set(format!("k{i}").as_bytes(), b"x").unwrap();
+		rt.block_on(tx.commit()).unwrap();
+	}
+	let core = Arc::clone(&tree.core);
+	let before = core.snapshot_tracker.get_all_snapshots();
+	let s = super::Snapshot::new(Arc::clone(&core), h);
+	let all = core.snapshot_tracker.get_all_snapshots();
+	println!("REPLAY snapshot registration: h={} solver-v={} other={} real visible={} registry before={:?} after new={:?}", h, v, other, core.seq_num(), before, all);
+	assert!(all.contains(&h), "the horizon a live snapshot reads at is not in the registry compaction consults");
+	drop(s);
+	assert!(core.snapshot_tracker.get_all_snapshots() == before, "dropping a snapshot did not unregister exactly its own registration");
+	rt.block_on(tree.close()).unwrap();
 }
